@@ -1,0 +1,40 @@
+//go:build verif
+
+package gohlslib
+
+import (
+	"time"
+
+	"github.com/bluenviron/gohlslib/v2/pkg/codecparams"
+	"github.com/bluenviron/gohlslib/v2/pkg/codecs"
+)
+
+// Lemma harnesses for the contract-based verification in /verif (engine: gvc).
+// Each function only calls real functions of this package; its contract (in verif_contracts.go)
+// states a relation between several calls that a single function's postcondition cannot state.
+// Compiled only with the build tag verif; never called by production code.
+
+// C09 (L1): every CODECS string the muxer can advertise is accepted by the client's variant filter.
+func verifLemmaCodecSupported(c codecs.Codec) bool {
+	s := codecparams.Marshal(c)
+	if s == "" {
+		return true
+	}
+	return checkSupport([]string{s})
+}
+
+// C03: EXTINF (difference of two converted timestamps) equals the spanned media time to within 1 ns.
+func verifLemmaSpan(a int64, b int64, clockRate int) (time.Duration, time.Duration) {
+	return timestampToDuration(b, clockRate) - timestampToDuration(a, clockRate), timestampToDuration(b-a, clockRate)
+}
+
+// C09 / C10 (L3): the leading track's first base time converts to 0; no offset at equal rates.
+func verifLemmaOrigin(base int64, rate int) int64 {
+	ts := &clientTimeConvFMP4{leadingTimeScale: int64(rate), leadingBaseTime: base}
+	return ts.convert(base, rate)
+}
+
+// C01: MPEG-TS timestamps are passed through unchanged at 90 kHz.
+func verifLemmaIdentity90k(v int64) int64 {
+	return multiplyAndDivide(v, 90000, 90000)
+}
